@@ -53,11 +53,35 @@ func verifCheckChannels(out []*verifReq, where string) {
 	}
 }
 
+// verifTake receives without blocking: when a frame that should be there is missing, the native replay must fail an
+// assertion, not hang
+func verifTake(ch <-chan *frame.Frame) (f *frame.Frame, ok bool, ready bool) {
+	select {
+	case f, ok = <-ch:
+		return f, ok, true
+	default:
+		return nil, false, false
+	}
+}
+
+// verifClosedAndEmpty reports whether a receive returns at once with ok == false
+func verifClosedAndEmpty(ch <-chan *frame.Frame) bool {
+	select {
+	case _, ok := <-ch:
+		return !ok
+	default:
+		return false
+	}
+}
+
 func verifDrain(r *verifReq, where string) {
 	ch := r.req.Incoming()
 	for _, want := range r.pending {
-		got, ok := <-ch
-		nd.Assert(ok, where+": delivered frame can be received")
+		got, ok, ready := verifTake(ch)
+		nd.Assert(ready && ok, where+": delivered frame can be received")
+		if !ready {
+			break
+		}
 		nd.Assert(got == want, where+": frames are received in arrival order, unaltered")
 	}
 	r.pending = nil
@@ -123,8 +147,7 @@ func verifInFlightHistory(n int, depth int, explicit bool) {
 			verifCheckChannels(out, "after delivery")
 			if final {
 				verifDrain(r, "final response")
-				_, ok := <-r.req.Incoming()
-				nd.Assert(!ok, "the channel is closed after the final response")
+				nd.Assert(verifClosedAndEmpty(r.req.Incoming()), "the channel is closed after the final response")
 				nd.Assert(r.req.IsDone(), "the request is completed by its final response")
 				nd.Assert(r.req.Err() == nil, "a normally completed request carries no error")
 				out = append(out[:i:i], out[i+1:]...)
@@ -144,8 +167,7 @@ func verifInFlightHistory(n int, depth int, explicit bool) {
 			closed = true
 			for _, r := range out {
 				verifDrain(r, "after close")
-				_, ok := <-r.req.Incoming()
-				nd.Assert(!ok, "close closes the channel of every pending request")
+				nd.Assert(verifClosedAndEmpty(r.req.Incoming()), "close closes the channel of every pending request")
 				nd.Assert(r.req.IsDone(), "close completes every pending request")
 				nd.Assert(r.req.Err() != nil, "a request completed by close carries an error")
 			}
@@ -240,8 +262,7 @@ func verifInFlightHistory2(n int, depth int, mode int, overflow bool) {
 				nd.Assert(r.req.IsDone(), "page overflow completes the request")
 				nd.Assert(r.req.Err() != nil, "a request closed by page overflow carries an error")
 				verifDrain(r, "after overflow")
-				_, ok := <-r.req.Incoming()
-				nd.Assert(!ok, "page overflow closes the request's channel")
+				nd.Assert(verifClosedAndEmpty(r.req.Incoming()), "page overflow closes the request's channel")
 				r.dead = true
 				anyDead = true
 			default:
@@ -249,8 +270,7 @@ func verifInFlightHistory2(n int, depth int, mode int, overflow bool) {
 				r.pending = append(r.pending, g)
 				if final {
 					verifDrain(r, "final response")
-					_, ok := <-r.req.Incoming()
-					nd.Assert(!ok, "the channel is closed after the final response")
+					nd.Assert(verifClosedAndEmpty(r.req.Incoming()), "the channel is closed after the final response")
 					nd.Assert(r.req.IsDone(), "the request is completed by its final response")
 					nd.Assert(r.req.Err() == nil, "a normally completed request carries no error")
 					out = append(out[:i:i], out[i+1:]...)
@@ -274,8 +294,7 @@ func verifInFlightHistory2(n int, depth int, mode int, overflow bool) {
 				if !r.dead {
 					verifDrain(r, "after close")
 				}
-				_, ok := <-r.req.Incoming()
-				nd.Assert(!ok, "close closes the channel of every pending request")
+				nd.Assert(verifClosedAndEmpty(r.req.Incoming()), "close closes the channel of every pending request")
 				nd.Assert(r.req.IsDone(), "close completes every pending request")
 				nd.Assert(r.req.Err() != nil, "a request completed by close carries an error")
 			}
@@ -342,6 +361,9 @@ func VerifC10_EventsGoToTheEventChannel() {
 	nd.Assert(!r.IsDone(), "an event does not complete a request")
 	nd.Assert(handled == 1, "event handlers are invoked")
 	nd.Assert(len(c.events) == 1, "the event is placed on the event channel")
+	if len(c.events) != 1 {
+		return
+	}
 	got := <-c.events
 	nd.Assert(got == ev, "the event channel delivers the event frame")
 	// a second and third event: the channel (capacity 1) takes one, the next is dropped without blocking
@@ -352,6 +374,6 @@ func VerifC10_EventsGoToTheEventChannel() {
 	// the real response still reaches the request
 	resp := verifResponse(f.Header.StreamId, true, false)
 	c.processIncomingFrame(resp)
-	g, ok := <-r.Incoming()
+	g, ok, _ := verifTake(r.Incoming())
 	nd.Assert(ok && g == resp, "the response reaches the request with the same stream id")
 }
